@@ -98,8 +98,8 @@ def optPods : Option RS → Int
   | some r => r.pods
 
 /-- `FilterActiveReplicaSets` -/
-def active (l : List RS) : List RS := l.filter (fun r => decide (r.spec > 0))
-def inactive (l : List RS) : List RS := l.filter (fun r => !decide (r.spec > 0))
+def active (l : List RS) : List RS := l.filter (fun r => decide (0 < r.spec))
+def inactive (l : List RS) : List RS := l.filter (fun r => !decide (0 < r.spec))
 
 /-- byte-wise string order (Go's `<` on strings) -/
 def lexLt : List Nat → List Nat → Bool
@@ -215,12 +215,12 @@ def getNewRS (s : State) (create : Bool) : Option RS × List Write :=
 def reconcileNew (s : State) (olds : List RS) (nw : RS) : Bool × RS × List Write :=
   if nw.spec == s.replicas then (false, nw, [])
   else if nw.spec > s.replicas then
-    let (r, w) := scaleAndRecord s nw s.replicas
-    (true, r, w)
+    let sc := scaleAndRecord s nw s.replicas
+    (true, sc.1, sc.2)
   else
     let newReplicasCount := newRSNewReplicas s (sumSpec olds + nw.spec) nw.spec
-    let (r, w) := scaleAndRecord s nw newReplicasCount
-    (nw.spec != newReplicasCount, r, w)
+    let sc := scaleAndRecord s nw newReplicasCount
+    (nw.spec != newReplicasCount, sc.1, sc.2)
 
 /-- `ScaleDownLimitForOld` -/
 def scaleDownLimitForOld (s : State) (olds : List RS) (newSpec : Int) : Int :=
@@ -254,9 +254,9 @@ def cleanupLoop (s : State) (maxCleanupCount : Int) : List RS → Int → LoopRe
       let newReplicasCount := r.spec - scaledDownCount
       if newReplicasCount > r.spec then ⟨r :: rest, 0, [], true⟩
       else
-        let (r', w) := scaleAndRecord s r newReplicasCount
+        let sc := scaleAndRecord s r newReplicasCount
         let res := cleanupLoop s maxCleanupCount rest (total + scaledDownCount)
-        { res with olds := r' :: res.olds, writes := w ++ res.writes }
+        { res with olds := sc.1 :: res.olds, writes := sc.2 ++ res.writes }
 
 /-- `cleanupUnhealthyReplicas` -/
 def cleanup (s : State) (olds : List RS) (maxCleanupCount : Int) : LoopRes :=
@@ -275,9 +275,9 @@ def scaleDownLoop (s : State) (totalScaleDownCount : Int) : List RS → Int → 
       let newReplicasCount := r.spec - scaleDownCount
       if newReplicasCount > r.spec then ⟨r :: rest, 0, [], true⟩
       else
-        let (r', w) := scaleAndRecord s r newReplicasCount
+        let sc := scaleAndRecord s r newReplicasCount
         let res := scaleDownLoop s totalScaleDownCount rest (total + scaleDownCount)
-        { res with olds := r' :: res.olds, writes := w ++ res.writes }
+        { res with olds := sc.1 :: res.olds, writes := sc.2 ++ res.writes }
 
 /-- `scaleDownOldReplicaSetsForRollingUpdate` (old RSs after the clean-up, the new RS) -/
 def scaleDownOld (s : State) (olds : List RS) (nw : RS) : LoopRes :=
@@ -298,8 +298,8 @@ def scaleUpOld (s : State) (olds : List RS) (scaledUpCount : Int) : Bool × List
     match sortBy bySizeOlder olds with
     | [] => (false, olds, [])
     | r :: rest =>
-      let (r', w) := scaleAndRecord s r (r.spec + scaledUpCount)
-      (r.spec != r.spec + scaledUpCount, r' :: rest, w)
+      let sc := scaleAndRecord s r (r.spec + scaledUpCount)
+      (r.spec != r.spec + scaledUpCount, sc.1 :: rest, sc.2)
 
 /-- `reconcileOldReplicaSets` on all old RSs (the code passes the active ones; the inactive
     ones are carried along unchanged): (scaled, old RSs, writes) -/
@@ -313,8 +313,8 @@ def reconcileOld (s : State) (allOlds : List RS) (nw : RS) : Bool × List RS × 
     let maxUnavailable := maxUnavailV s
     let scaleDownOldLimit := scaleDownLimitForOld s olds nw.spec
     if scaleDownOldLimit ≤ 0 then
-      let (b, l, w) := scaleUpOld s olds (-scaleDownOldLimit)
-      (b, l ++ rest, w)
+      let up := scaleUpOld s olds (-scaleDownOldLimit)
+      (up.1, up.2.1 ++ rest, up.2.2)
     else
       let minAvailable := s.replicas - maxUnavailable
       let newRSUnavailablePodCount := nw.spec - nw.avail
@@ -500,11 +500,11 @@ def rolloutRolling (s : State) : Result :=
   | (none, w) => ⟨.rolling, true, false, w, none, s.olds, s.statusReplicas⟩   -- unreachable: create = true
   | (some nw, w0) =>
     let status := sumPods s.olds + nw.pods
-    let (scaledUp, nw', w1) := reconcileNew s s.olds nw
-    if scaledUp then ⟨.rolling, false, false, w0 ++ w1, some nw', s.olds, status⟩
+    let rn := reconcileNew s s.olds nw
+    if rn.1 then ⟨.rolling, false, false, w0 ++ rn.2.2, some rn.2.1, s.olds, status⟩
     else
-      let (_, olds', w2) := reconcileOld s s.olds nw
-      ⟨.rolling, false, false, w0 ++ w2, some nw, olds', status⟩
+      let ro := reconcileOld s s.olds nw
+      ⟨.rolling, false, false, w0 ++ ro.2.2, some nw, ro.2.1, status⟩
 
 /-- `sync` (scaling event or paused) -/
 def syncScale (s : State) : Result :=
